@@ -169,6 +169,27 @@ def check_patch(o):
         if not np.array_equal(got, want_s):
             k = np.argwhere(got != want_s)[0].tolist()
             bad.append((tag + ": slicing path returns other pixels than the patch layout rule", {"first_difference_at": k}, None))
+        # the same patches delivered as a list of images (as_single_array=False): centre-major, list[c * n_offsets + o] is patch (c, o);
+        # and through the image's own landmark group
+        try:
+            lst = img.extract_patches(PointCloud(cen), patch_shape=(ph, pw), sample_offsets=offs, cval=cval, as_single_array=False)
+            if len(lst) != len(cen) * len(offs) or any(not np.array_equal(np.asarray(lst[i * len(offs) + j].pixels), got[i, j])
+                                                       for i in range(len(cen)) for j in range(len(offs))):
+                bad.append((tag + ": extract_patches(as_single_array=False) is not the centre-major list of the patches of the single array", {}, None))
+            wl = img.copy()
+            wl.landmarks["pc"] = PointCloud(cen.copy())
+            gl = wl.extract_patches_around_landmarks(group="pc", patch_shape=(ph, pw), sample_offsets=offs)
+            ll = wl.extract_patches_around_landmarks(group="pc", patch_shape=(ph, pw), sample_offsets=offs, as_single_array=False)
+            got0 = img.extract_patches(PointCloud(cen), patch_shape=(ph, pw), sample_offsets=offs)          # (the default fill value)
+            if gl.shape != got0.shape or not np.array_equal(gl, got0) or len(ll) != len(cen) * len(offs) or any(
+                    not np.array_equal(np.asarray(ll[i * len(offs) + j].pixels), got0[i, j]) for i in range(len(cen)) for j in range(len(offs))):
+                bad.append((tag + ": extract_patches_around_landmarks differs from extract_patches at the same centres", {}, None))
+        except Exception as e:
+            from ..core import from_library
+
+            if not from_library(e):
+                raise
+            bad.append((tag + ": patch extraction with as_single_array=False / around landmarks raised %s" % type(e).__name__, {"msg": str(e)[:120]}, None))
         want_p, judged_p = _expected(img.pixels, o["sample"], ph, pw, cval)
         gp = extract_patches_by_sampling(img.pixels, cen, (ph, pw), offsets=offs, order=0, mode="constant", cval=cval)
         m = np.broadcast_to(judged_p[:, :, None], gp.shape)
